@@ -140,14 +140,16 @@ def runCalls (ls : List Leaf) : List (Option Int) → List CallIn → List Bool
 /-- a message handed to the sink: timestamp, encoded length, character count -/
 structure Msg where
   stamp : Stamp
-  bytes : Int
-  chars : Int
+  bytes : Int      -- len(message.encode(file.encoding, file.errors)): what `rotation_size` adds
+  chars : Int      -- len(message)
+  disk : Int       -- bytes the text layer really appends to the file: differs from `bytes` when open()'s
+                   -- `newline` keyword translates every "\n" (newline="\r\n", or the default on Windows)
   deriving Repr, DecidableEq
 
 /-- one log file as the sink sees it -/
 structure FileRec where
   initial : Int             -- bytes already in the file when this sink opened it (0 for files it created)
-  msgs : List (Nat × Int)   -- (index, encoded length) of the messages this sink wrote into it
+  msgs : List (Nat × Int)   -- (index, bytes appended) of the messages this sink wrote into it
   deriving Repr, DecidableEq
 
 def sumBytes : List (Nat × Int) → Int
@@ -172,10 +174,10 @@ def Sink.write (ls : List Leaf) (s : Sink) (m : Msg) : Sink :=
   let x : CallIn := { ctime := s.ctime, stamp := m.stamp, bytes := m.bytes, chars := m.chars, tell := s.cur.size }
   let r := groupCall ls s.states x
   if r.1 then
-    { states := r.2, closed := s.closed ++ [s.cur], cur := { initial := 0, msgs := [(s.next, m.bytes)] },
+    { states := r.2, closed := s.closed ++ [s.cur], cur := { initial := 0, msgs := [(s.next, m.disk)] },
       ctime := m.stamp.utc, next := s.next + 1 }
   else
-    { states := r.2, closed := s.closed, cur := { s.cur with msgs := s.cur.msgs ++ [(s.next, m.bytes)] },
+    { states := r.2, closed := s.closed, cur := { s.cur with msgs := s.cur.msgs ++ [(s.next, m.disk)] },
       ctime := s.ctime, next := s.next + 1 }
 
 def Sink.init (ls : List Leaf) (ctime size : Int) : Sink :=
